@@ -734,8 +734,9 @@ func (rn *runner) step(o qop) {
 // gen produces the next operation from the model state (respecting the
 // interface contract) or executes a supplied script.
 type genCfg struct {
-	rng *rand.Rand
-	seq int
+	rng   *rand.Rand
+	seq   int
+	noBig bool // no payloads >= 64 KiB (covered by a dedicated case for the redis back end)
 }
 
 func (g *genCfg) nextID(m *model) uint16 {
@@ -770,7 +771,7 @@ func (g *genCfg) next(m *model, limitChoices []uint32) qop {
 			if pad := target - int(pubSize(base, m.version)); pad > 0 {
 				o.Pad = pad
 			}
-		} else if rng.Intn(40) == 0 {
+		} else if !g.noBig && rng.Intn(40) == 0 {
 			o.Pad = []int{65535, 65536, 70000}[rng.Intn(3)] - len(o.Payload)
 		}
 		return o
@@ -884,7 +885,7 @@ func (rn *runner) finalDrain(g *genCfg) {
 }
 
 func (rn *runner) runRandom(rng *rand.Rand, capacity, inflExp, nops int) {
-	g := &genCfg{rng: rng}
+	g := &genCfg{rng: rng, noBig: rn.fac.Name != "mem"}
 	limits := [][]uint32{{math.MaxUint32}, {math.MaxUint32, 120}, {120, 300}}[rng.Intn(3)]
 	for i := 0; i < nops && !rn.dead; i++ {
 		rn.step(g.next(rn.m, limits))
@@ -962,6 +963,35 @@ func Run(r *monitor.Run) {
 			}
 		}
 		blockedReadCases(r, fac)
+		bigPayloadCases(r, fac)
+	}
+}
+
+// bigPayloadCases: messages of 65535 / 65536 / 70000 payload bytes survive the queue unchanged.
+func bigPayloadCases(r *monitor.Run, fac Factory) {
+	for _, size := range []int{65535, 65536, 70000} {
+		rn, cleanup, err := newRunner(r, fac, 3, 0, fmt.Sprintf("big-%d", size))
+		if err != nil {
+			r.Inconclusive(err.Error())
+			return
+		}
+		rn.step(qop{Kind: "init", Clean: true, Version: 5, Limit: math.MaxUint32})
+		rn.step(qop{Kind: "readinflight", N: 5})
+		rn.step(qop{Kind: "add", Payload: "big", QoS: 1, Pad: size - 3})
+		el, err := rn.st.Read([]uint16{1})
+		rn.hist = append(rn.hist, qop{Kind: "read", IDs: []uint16{1}})
+		ok := err == nil && len(el) == 1
+		if ok {
+			p, isPub := el[0].MessageWithID.(*queue.Publish)
+			ok = isPub && len(p.Payload) == size && p.Topic == topic && p.QoS == 1
+		}
+		if !ok {
+			r.Violation(fmt.Sprintf("big_payload:store=%s:over_64k=%v", fac.Name, size > 65535), fmt.Sprintf("a queued message with a %d byte payload does not come back intact from Read (err=%v, %d elems)", size, err, len(el)),
+				map[string]any{"store": fac.Name, "payload_size": size})
+		}
+		r.Eval(1)
+		r.Count("big_payload_cases", 1)
+		cleanup()
 	}
 }
 
